@@ -23,13 +23,41 @@ TOL = 1e-8
 
 @st.composite
 def heuristic_specs(draw, n):
-    kind = draw(st.sampled_from(["const", "exact", "slack", "slack"]))
+    kind = draw(st.sampled_from(["const", "exact", "slack", "slack", "tie"]))
     return {"kind": kind, "slack": [draw(st.sampled_from([0, 0, 0.05, 0.5, 1, 3])) for _ in range(n)],
             "const_extra": draw(st.sampled_from([0, 0.5, 2]))}
 
 
+def tie_slack(ref, vstar, opt_q):
+    """per-state slack that makes a sub-optimal action whose (sure) successor is s2 look exactly as good as the best
+    action as long as s2 keeps its heuristic value: slack(s2) = (V*(s) - Q*(s,a)) / gamma. Still admissible."""
+    slack = [0.0] * ref.n
+    for s in range(ref.n):
+        if ref.absorbing[s]:
+            continue
+        for a in range(ref.m):
+            if not ref.avail[s, a]:
+                continue
+            succ = [k for k in range(ref.n) if ref.W[s, a, k] > 0]
+            gap = float(vstar[s] - opt_q[s, a])
+            if len(succ) == 1 and gap > 1e-9 and not ref.absorbing[succ[0]] and succ[0] != s:
+                g = gap / ref.gamma
+                if slack[succ[0]] == 0.0 or g < slack[succ[0]]:
+                    slack[succ[0]] = g
+    return slack
+
+
 def make_heuristic(hs, ref, vstar, view):
     n = ref.n
+    if hs["kind"] == "tie":
+        sl = tie_slack(ref, vstar, hs["_q"])
+        vals = [float(v) + x for v, x in zip(vstar, sl)]
+        deterministic = all((ref.W[s, a] > 0).sum() <= 1 for s in range(n) for a in range(ref.m))
+        if deterministic and ref.gamma == 1.0 and float(np.abs(ref.R - np.round(ref.R)).max()) == 0:
+            # integer problem: make the ties exact in floating point
+            vals = [float(round(v)) for v in vals]
+        table = {view.S[i]: vals[i] for i in range(n)}
+        return (lambda s: table[s]), vals
     if hs["kind"] == "const":
         c = max(0.0, float(np.max(vstar))) + hs["const_extra"]
         vals = [c] * n
@@ -93,7 +121,7 @@ def prop_lao(case, ctx):
     ref = RefMDP(spec)
     opt = ref.optimal()
     vstar = opt["V"]
-    h, hvals = make_heuristic(case["heuristic"], ref, vstar, view)
+    h, hvals = make_heuristic(dict(case["heuristic"], _q=opt["Q"]), ref, vstar, view)
     scale = 1 + float(np.max(np.abs(vstar)))
     below = []
 
